@@ -71,8 +71,15 @@ def runLine (spec : Bool) (line : String) : String :=
   | f :: rest =>
     match f.toNat?, rest.mapM parseTok with
     | some fuel, some ts =>
-      if spec then showRes (ChibiVerif.Spec.PPSpec.expandFile fuel ts)
-      else showRes (preprocess fuel ts)
+      if spec then
+        match ChibiVerif.Spec.PPSpec.expandFileX fuel ts with
+        | .ok (out, crossed) => " ".intercalate ((if crossed then "okx" else "ok") :: out.map showTok)
+        | .error e => "err " ++ errName e
+      else
+        match preprocessX fuel ts with
+        | .ok (out, pm, bs) =>
+          " ".intercalate (("ok" ++ (if pm || bs then ":" else "") ++ (if pm then "p" else "") ++ (if bs then "b" else "")) :: out.map showTok)
+        | .error e => "err " ++ errName e
     | _, _ => "bad-op"
 
 partial def ppLoop (spec : Bool) (h : IO.FS.Stream) : IO UInt32 := do
